@@ -112,5 +112,19 @@ def run(ctx):
             for r in ex.map(lambda ic: runlib.run_one(ctx, "par", ic[1], "t%d" % ic[0]), enumerate(cfgs)):
                 agg.add(r)
         runlib.standard_verdicts(ctx, agg, "termination bookkeeping and votes of full runs (call sites in process.c included)",
-                                 ("s_vote_false_pred",))
+                                 ("s_vote_false_pred", "s_vote_uncommitted"))
         ctx.coverage["full_run_votes"] = agg.tot.get("votes", 0)
+        if ctx.broken and not ctx.violations:
+            # the tie broke and no run above violated the property itself: look for a premature vote on the implementation with
+            # configurations biased towards several LPs per thread, tiny thresholds (predicates that hold speculatively and are
+            # undone again), frequent GVT rounds; judged by the ledger oracle only
+            extra = []
+            for i in range(2000 if ctx.tier == "quick" else 12000):
+                c = runlib.gen_configs(ctx, 1)[0]
+                thr = rnd.choice([1, 1, 2])
+                c.update({"seed": rnd.randrange(1, 1 << 30), "mseed": rnd.randrange(1, 1 << 30), "threads": thr,
+                          "lps": thr * rnd.choice([2, 3, 4]), "thr": rnd.choice([3, 5, 8, 12, 20]), "spread": rnd.choice([0, 3, 10, 30]),
+                          "burst": rnd.choice([5, 20, 60, 200]), "period": rnd.choice([0, 0, 10]), "fan": rnd.choice([3, 4]), "mem": 0,
+                          "batch": rnd.choice([0, 2, 4, 8]), "t0": rnd.choice([0, 1]), "types": rnd.choice([2, 3, 4])})
+                extra.append(c)
+            runlib.oracle_search(ctx, extra, ("s_vote_false_pred", "s_vote_uncommitted"), label="premature_vote_search")
